@@ -229,6 +229,76 @@ Proof.
   rewrite Forall_forall in Hall. apply (Hall d Hin).
 Qed.
 
+(* a finished contract-obeying run whose abstract message is [Good] is a well-formed response *)
+Lemma run_wf cls buf lim w0 ops outs d' g' L :
+  writer_new buf lim = Ok w0 -> Reach (Pop2 cls) (mkD w0 []) g0 ops outs d' g' -> AInv d' g' L ->
+  Good cls (areplay am0 ops outs) (hreplay ah0 ops outs) ->
+  exists len b, finish (d_w d') = Ok (len, b) /\ wf_response (firstn len b) = true.
+Proof.
+  intros E0 Rall Hi G.
+  destruct (Reach_run _ _ _ _ _ _ _ Rall) as (Hrun & Hrc & F1 & F2 & F3 & F4 & Hlen).
+  destruct (finish_ok (fun x => x) d' g' L Hi) as (wF & LF & EF & _).
+  exists (w_cursor wF), (w_buf wF). split; [exact EF|].
+  destruct (roundtrip_full buf _ w0 ops E0 Hrc F1 F2 F3) as (rr & Err & Hrt).
+  assert (Hrr' : rr = mkRR outs (d_regs d') (Some (w_cursor wF, w_buf wF))).
+  { unfold run_writer, run_writer_gen in Err. rewrite E0 in Err. cbn [bind] in Err. rewrite Hrun in Err. cbn [bind] in Err.
+    unfold finish in Err. rewrite EF in Err. cbn [bind] in Err. inversion Err. reflexivity. }
+  subst rr. cbn [rr_final rr_outcomes] in Hrt.
+  destruct Hrt as (m & Em & Hh & _ & Han & Hns & Har & _).
+  unfold wf_response. rewrite Em.
+  destruct G as (G1 & G2 & G3 & G4 & G5 & G6).
+  apply wf_decoded_intro.
+  - unfold qr_bit. destruct Hh as (_ & Hqr & _). rewrite Hqr. exact G1.
+  - exact (section_ok cls _ _ G4 Han).
+  - exact (section_ok cls _ _ G5 Hns).
+  - apply Forall2_app_inv_l in Har as (xs & ps & Hxs & Hps & Ear). exists xs, ps. split; [exact Ear|].
+    split; [exact (section_ok cls _ _ G6 Hxs)|].
+    unfold pseudo_of in Hps. rewrite G2 in Hps. rewrite app_nil_r in Hps.
+    destruct (h_edns _) as [[u up]|].
+    + inversion Hps as [|a d l l' Hd Hrest]; subst. inversion Hrest; subst. split; [simpl; lia|].
+      constructor; [|constructor]. destruct (opt_decoded _ _ _ _ Hd) as (A & _ & B). auto.
+    + inversion Hps; subst. split; [simpl; lia|constructor].
+Qed.
+
+Lemma Pop2_hdr cls : forall o, match o with
+  | OSetId _ | OSetQr true | OSetOpcode _ | OSetRd _ | OAddQuestion _ _ _ | OSetEdns _ | OSetLimit _
+  | OSetAa _ | OSetTc _ | OSetRcode _ | OClearRrs => Pop2 cls o
+  | _ => True end.
+Proof. intros o. destruct o; try exact I; try (destruct b; exact I || reflexivity). Qed.
+
+(* a response that does not come from query answering: REFUSED / NOTIMP / SERVFAIL for a clean QUERY *)
+Theorem respond_plain_wf buf tcp id rd qname qtype qclass edns limit rcode :
+  512 <= length buf -> good_name qname ->
+  (id < 65536)%N -> (qtype < 65536)%N -> (qclass < 65536)%N -> (forall s, edns = Some s -> (s < 65536)%N) ->
+  (rcode < 16)%N ->
+  exists len b, respond_plain buf tcp id rd qname qtype qclass edns limit rcode = Some (len, b) /\
+                wf_response (firstn len b) = true.
+Proof.
+  intros Hb Gq Hid Hqt Hqc Hed Hrc. set (cls := 0%N). set (Pop := Pop2 cls).
+  assert (Hhdr : forall o, match o with
+    | OSetId _ | OSetQr true | OSetOpcode _ | OSetRd _ | OAddQuestion _ _ _ | OSetEdns _ | OSetLimit _ => Pop o
+    | _ => True end).
+  { intros o. pose proof (Pop2_hdr cls o) as H. destruct o; auto. }
+  destruct (prepare_total buf tcp id rd qname qtype qclass edns limit Hb (proj2 Gq)) as (w & Ew).
+  destruct (prepare_Reach Pop Hhdr buf tcp id rd qname qtype qclass edns limit w Ew Gq Hid Hqt Hqc Hed) as (w0 & E0 & Rpre).
+  set (pre := pre_ops tcp id rd qname qtype qclass edns limit) in *.
+  set (opre := map (fun _ : wop => RUnit) pre) in *.
+  destruct (Reach_AInv Pop _ _ _ _ _ _ Rpre L0 (AInv_new _ _ _ E0)) as (Lp & Hip).
+  assert (Sp : St Pop (mkD w []) (g_prepared qname) (mkD w []) (g_prepared qname)).
+  { exists [], [], Lp. split; [constructor|exact Hip]. }
+  destruct (St_set_rcode Pop _ _ _ _ rcode Sp Hrc (Pop2_hdr cls (OSetRcode rcode))) as (w' & Ew' & (ops2 & outs2 & L & Rq & Hi)).
+  cbn [d_w wi_set_rcode w_iface] in Ew'. cbn [d_regs] in Rq, Hi.
+  pose proof (Reach_trans Pop _ _ _ _ _ _ _ _ _ _ Rpre Rq) as Rall.
+  destruct (Reach_run Pop _ _ _ _ _ _ Rq) as (_ & _ & _ & _ & _ & F4q & Hlenq).
+  assert (Hlp : length pre = length opre) by (unfold opre; rewrite map_length; reflexivity).
+  assert (G : Good cls (areplay am0 (pre ++ ops2) (opre ++ outs2)) (hreplay ah0 (pre ++ ops2) (opre ++ outs2))).
+  { rewrite areplay_app, hreplay_app by exact Hlp. apply Good_replay; [exact F4q|]. apply Good_prepared. }
+  destruct (run_wf cls buf _ w0 _ _ _ _ L E0 Rall Hi G) as (len & b & Ef & Hwf). cbn [d_w] in Ef.
+  exists len, b. split; [|exact Hwf].
+  unfold respond_plain. rewrite Ew. destruct (set_rcode rcode w) as [w2|e|]; try discriminate.
+  inversion Ew'; subst w2. rewrite Ef. reflexivity.
+Qed.
+
 (* ---------------------------------------------------------------- the theorem *)
 
 Section Wf.
@@ -287,35 +357,13 @@ Proof.
     as (w' & d' & g' & Eh & (ops2 & outs2 & L & Rq & Hi) & Hw').
   cbn [d_w] in Eh.
   pose proof (Reach_trans Pop _ _ _ _ _ _ _ _ _ _ Rpre Rq) as Rall.
-  destruct (Reach_run Pop _ _ _ _ _ _ Rall) as (Hrun & Hrc & F1 & F2 & F3 & F4 & Hlen).
   destruct (Reach_run Pop _ _ _ _ _ _ Rq) as (_ & _ & _ & _ & _ & F4q & Hlenq).
-  destruct (finish_ok (fun x => x) d' g' L Hi) as (wF & LF & EF & _).
-  exists (w_cursor wF), (w_buf wF). split.
-  { unfold respond_w. rewrite Ew, Eh. unfold finish. rewrite <- Hw', EF. reflexivity. }
-  (* C12's round trip *)
-  destruct (roundtrip_full buf _ w0 (pre ++ ops2) E0 Hrc F1 F2 F3) as (rr & Err & Hrt).
-  assert (Hrr' : rr = mkRR (opre ++ outs2) (d_regs d') (Some (w_cursor wF, w_buf wF))).
-  { unfold run_writer, run_writer_gen in Err. rewrite E0 in Err. cbn [bind] in Err. rewrite Hrun in Err. cbn [bind] in Err.
-    unfold finish in Err. rewrite EF in Err. cbn [bind] in Err. inversion Err. reflexivity. }
-  subst rr. cbn [rr_final rr_outcomes] in Hrt.
-  destruct Hrt as (m & Em & Hh & _ & Han & Hns & Har & _).
-  unfold wf_response. rewrite Em.
-  (* what the abstract message holds *)
   assert (Hlp : length pre = length opre) by (unfold opre; rewrite map_length; reflexivity).
   assert (G : Good cls (areplay am0 (pre ++ ops2) (opre ++ outs2)) (hreplay ah0 (pre ++ ops2) (opre ++ outs2))).
   { rewrite areplay_app, hreplay_app by exact Hlp. apply Good_replay; [exact F4q|]. apply Good_prepared. }
-  destruct G as (G1 & G2 & G3 & G4 & G5 & G6).
-  apply wf_decoded_intro.
-  - unfold qr_bit. destruct Hh as (_ & Hqr & _). rewrite Hqr. exact G1.
-  - exact (section_ok cls _ _ G4 Han).
-  - exact (section_ok cls _ _ G5 Hns).
-  - apply Forall2_app_inv_l in Har as (xs & ps & Hxs & Hps & Ear). exists xs, ps. split; [exact Ear|].
-    split; [exact (section_ok cls _ _ G6 Hxs)|].
-    unfold pseudo_of in Hps. rewrite G2 in Hps. rewrite app_nil_r in Hps.
-    destruct (h_edns _) as [[u up]|].
-    + inversion Hps as [|a d l l' Hd Hrest]; subst. inversion Hrest; subst. split; [simpl; lia|].
-      constructor; [|constructor]. destruct (opt_decoded _ _ _ _ Hd) as (A & _ & B). auto.
-    + inversion Hps; subst. split; [simpl; lia|constructor].
+  destruct (run_wf cls buf _ w0 _ _ _ _ L E0 Rall Hi G) as (len & b & Ef & Hwf).
+  exists len, b. split; [|exact Hwf].
+  unfold respond_w. rewrite Ew, Eh. rewrite <- Hw'. rewrite Ef. reflexivity.
 Qed.
 
 End Wf.
